@@ -215,6 +215,14 @@ def parse_primary(p, nostruct):
             incl = p.next()[1] == "..="
             hi = parse_expr(p)
             e = ("range", e, hi, incl)
+        if p.at(","):
+            items = [e]
+            while p.eat(","):
+                if p.at(")"):
+                    break
+                items.append(parse_expr(p))
+            p.expect(")")
+            return ("tuple", items)
         p.expect(")")
         return ("paren", e)
     if k == "id" and v == "if":
